@@ -980,7 +980,7 @@ def _work(args):
 
 def run(run):
     import multiprocessing
-    ncases = 1500 if run.thorough else 150
+    ncases = 1500 if run.thorough else 110
     cases = load_corpus()
     run.count("corpus", len(cases))
     if run.thorough:
